@@ -6,6 +6,10 @@ RULE = ("op `pkt <frame> <script>` with read-only scripts: every G step goes thr
         "RFC bit slice / address text / payload bytes / layer object expected at each step, `-` where the statement is silent (a named layer whose name "
         "disagrees with the type field, malformed length fields, TCP reserved bits); field sweeps embed every value of a field in random surrounding bytes; "
         "distinct = distinct op line; non-trivial = at least one read returned a value")
+NOTES = ["the model is the code after /repo commits aefd4e7 (tcp.flags = control bits, payload after data offset*4, truncated TCP header = error object), d83dd30 (IPv4 header "
+         "running past the capture = error object, no panic), cc7014b (named layer getters check the type field) and 7e7b19c (vlan.ipv6): getter_is_slice, payload_offset, "
+         "truncated_is_error_object, dispatch_agrees hold without exclusions",
+         "the witness lines of the repaired findings in known_findings.json are run as regression inputs on every check"]
 ASSUMPTIONS = ["an address is 'returned in its textual form' when the text is one of: MAC two-digit groups in either case; dotted quad; IPv6 as eight plain groups, "
                "RFC 5952 compressed, or zero-padded, in either case",
                "a payload may stop at the end of the frame or where an enclosing length field (IPv4 total length, IPv6 payload length, UDP length) says",
